@@ -206,6 +206,13 @@ def gen(seed, family=None, knobs=None):
             add("node-account-change-password", {"node_name": h, "username": "admin", "current_password": "admin", "new_password": "x"})
             add("node-account-add-user", {"node_name": h, "username": "bob", "password": "b", "is_admin": False})
             add("node-account-disable-user", {"node_name": h, "username": "bob"})
+    # nmap actions from client hosts (scans over a subnet: order-sensitive code paths)
+    for h in [x for x in hosts if x.startswith("pc_")][:2]:
+        subnet_ips = [meta_hosts[x]["ip"] for x in hosts][:4] + [subnets[0][0] + ".250"]
+        add("node-nmap-ping-scan", {"source_node": h, "target_ip_address": subnet_ips})
+        add("node-nmap-ping-scan", {"source_node": h, "target_ip_address": subnets[0][0] + ".0/28"})
+        add("node-nmap-port-scan", {"source_node": h, "target_ip_address": subnet_ips[:2], "target_port": [80, 5432, 21], "target_protocol": ["tcp", "udp"]})
+        add("node-network-service-recon", {"source_node": h, "target_ip_address": subnet_ips[:3], "target_port": 5432, "target_protocol": "tcp"})
     # deliberately missing / misspelt targets
     h0 = hosts[0]
     add("node-service-stop", {"node_name": h0, "service_name": "no-such-service"}, "missing")
